@@ -123,9 +123,18 @@ func genL1(t *rapid.T) *l1Case {
 }
 
 func genChainOrdered(t *rapid.T, tb *Table, l1 bool) ([]*Cmd, bool) {
-	g := &gstate{ordered: true, uniq: []string{"id"}, l1: l1}
+	g := &gstate{ordered: true, uniq: []string{"id"}, l1: l1, nrows: len(tb.Rows)}
 	for _, c := range tb.Cols {
 		g.fields = append(g.fields, gfield{c.Name, c.Kind})
+	}
+	// one chain in four (one in two end to end, where cases are few) has the directed shape
+	// [stateless] limiter [stateless] two-pass command [0-2 further commands], see twopass_test.go
+	rate := 3
+	if !l1 {
+		rate = 1
+	}
+	if rapid.IntRange(0, rate).Draw(t, "twoPassScenario") == 0 {
+		return genTwoPassScenario(t, g, len(tb.Rows)), g.ordered
 	}
 	n := rapid.IntRange(1, 5).Draw(t, "chainLen")
 	var chain []*Cmd
@@ -353,10 +362,24 @@ func cutsInsideState(c *Cmd, tb *Table, p Partition) bool {
 	case "streamstats":
 		return sharedKey(c.By)
 	case "head":
+		if c.Expr != nil {
+			// the run of rows up to the stop (condition false/null, or the limit) shares the stop flag
+			// and the counter: measured with the condition evaluated on the table rows; a condition over
+			// computed columns or one the evaluator is silent on counts as "any boundary"
+			out, err := modelHeadExpr(c, tb.modelRows())
+			if err != nil {
+				return true
+			}
+			stop := len(out)
+			if stop >= n {
+				stop = n - 1
+			}
+			return b[stop] != b[0]
+		}
 		return c.N > 0 && c.N < n && b[c.N-1] != b[0] || (c.N > 0 && c.N < n && b[c.N] != b[0])
 	case "tail":
 		return c.N > 0 && c.N < n && b[n-c.N] != b[n-1] || (c.N > 0 && c.N < n && b[n-c.N-1] != b[n-1])
-	case "sort", "fillnull":
+	case "sort", "fillnull", "bin":
 		return true
 	}
 	return false
@@ -396,6 +419,12 @@ func checkL1(c *l1Case, o *pt.Obs) error {
 		if cmd.stateful() && firstStateful == nil {
 			firstStateful = cmd
 		}
+		if cmd.Op == "head" && cmd.Expr != nil {
+			classifyHeadExpr(cmd, o)
+		}
+		if cmd.Op == "streamstats" && limiterName(cmd) == "streamstats_reset" {
+			o.Class("streamstats_reset")
+		}
 	}
 	if c.Ordered {
 		o.Class("order_total")
@@ -404,6 +433,20 @@ func checkL1(c *l1Case, o *pt.Obs) error {
 	}
 
 	if knownSkip(c.Chain, o, false) {
+		// The listed findings concern what comes behind the two-pass command or a bottleneck in front of
+		// it. If the chain cut behind its first two-pass command is touched by none of them (and has no
+		// bottleneck, so its row order is the input's), that part is still checked in full.
+		if tp, _ := limiterBeforeTwoPass(c.Chain); tp >= 0 && tp+1 < len(c.Chain) && !knownSkip(c.Chain[:tp+1], &pt.Obs{}, false) {
+			for _, cmd := range c.Chain[:tp+1] {
+				if cmd.bottleneck() {
+					return nil
+				}
+			}
+			o.Class("known_finding_case/prefix_still_checked")
+			cut := *c
+			cut.Chain, cut.Ordered = c.Chain[:tp+1], true
+			return checkL1(&cut, &pt.Obs{})
+		}
 		return nil
 	}
 	ref := runChain(text, tb, c.Parts[0])
@@ -479,6 +522,11 @@ func checkL1(c *l1Case, o *pt.Obs) error {
 		o.Class("nontrivial_" + firstStateful.Op)
 	}
 
+	// one pass / two passes: one-pass formulation and composition (twopass_test.go)
+	if err := checkTwoPassL1(c, ref, o); err != nil {
+		return err
+	}
+
 	// reference evaluator
 	if ref.Err != "" {
 		o.Class("model_skipped_engine_error")
@@ -499,6 +547,12 @@ func checkL1(c *l1Case, o *pt.Obs) error {
 	o.Class("model_checked")
 	for _, cmd := range c.Chain {
 		o.Class("model_checked_" + cmd.Op)
+		if cmd.Op == "head" && cmd.Expr != nil {
+			o.Class("model_checked_head_expr")
+		}
+	}
+	if tp, _ := limiterBeforeTwoPass(c.Chain); tp >= 0 {
+		o.Class("model_checked_two_pass_chain")
 	}
 	hasTop := false
 	for _, cmd := range c.Chain {
